@@ -565,9 +565,9 @@ def decoders(ctx, rep):
                     lf_ = {n_: (o_, sz_) for o_, (n_, sz_) in P.field_table(LANG_STRUCT).items()}
                     def lang_hook(I_, st_, ptr, nbytes, inst, as_ptr, lf_=lf_):
                         c0 = ptr.parts[0] if ptr.parts else ptr.coff()
+                        fb = P.flag_load(LANG_STRUCT, c0, nbytes, {n__: I_.V.bit('lang.' + n__) for n__ in ('is_sorted', 'has_prefix', 'has_accents', 'compose')}) if c0 is not None else None
+                        if fb is not None: return BV(fb)
                         for nm_, (o_, sz_) in lf_.items():
-                            if o_ == c0 and nm_ in ('is_sorted', 'has_prefix', 'has_accents', 'compose'):
-                                return BV([I_.V.bit('lang.' + nm_)] + [0] * (8 * nbytes - 1))
                             if o_ == c0 and nm_ in ('name', 'name_en', 'separator'): return Tag(nm_)
                         raise Unmodelled('decoder reads the language table at offset %s (%s)' % (c0, inst.loc))
                     st.mem.hooks = {'lang': lang_hook}
@@ -852,13 +852,18 @@ def encode_api(ctx, rep):
         def lang_hook(I, st, ptr, nbytes, inst, as_ptr):
             c0, steps = ptr.parts if ptr.parts else (ptr.coff(), [])
             if not steps:
+                fb = P.flag_load(LANG_STRUCT, c0, nbytes, {n__: I.V.bit('lang.' + n__) for n__ in ('is_sorted', 'has_prefix', 'has_accents', 'compose')}) if c0 is not None else None
+                if fb is not None: return BV(fb)
                 for nm, (o_, sz) in lf.items():
                     if o_ == c0 and nm in ('name', 'name_en', 'separator'): return Tag(nm)
-                    if o_ == c0 and nm in ('is_sorted', 'has_prefix', 'has_accents', 'compose'):
-                        return BV([I.V.bit('lang.' + nm)] + [0] * (8 * nbytes - 1))
                 raise Unmodelled('read of lang at offset %s' % c0)
             if c0 == lf['words'][0] and len(steps) == 1 and steps[0][1] == 8:
-                return Tag('word', tuple(st.cons.reduce(b) for b in steps[0][0].bits))
+                ib = tuple(st.cons.reduce(b) for b in steps[0][0].bits)
+                nw = lf['words'][1] // 8
+                if all(b == 0 for b in ib[(nw - 1).bit_length():]) and nw == 1 << (nw - 1).bit_length():
+                    from . import bitflow as BF_
+                    BF_.ACCESS_LOG.add((base_name(inst.fn.name), inst.loc))      # read of the constant table at an index proved < table size (IDX-2)
+                return Tag('word', ib)
             raise Unmodelled('unrecognised access to the language table at %s' % inst.loc)
         st.mem.hooks = {'lang': lang_hook}
         before = list(st.mem.objs['seed'])
@@ -943,10 +948,19 @@ def _search_summary(I, mode, per_word_lang=None):
         bit = I.V.bit('W[%s]' % wi) if ln == per_word_lang else I.V.bit('M[%s]' % ln)
         b = st.cons.reduce(bit)
         found = BV(I.V.bv('r[%s][%s]' % (ln, wi), GF_BITS).bits + [0] * (32 - GF_BITS))
+        miss = BV.const(0xffffffff, 32)
+        tgt_ = I.P.call_target(inst)
+        if tgt_[0] == 'direct' and tgt_[1] in I.P.defined and I.P.defined[tgt_[1]].d.get('ret_ty', '').endswith('*'):
+            # the search returns the matching table entry (or NULL) instead of its index: entry = &lang->words[r]
+            from .ir import LANG_STRUCT
+            woff_ = [o_ for o_, (n_, s_) in I.P.field_table(LANG_STRUCT).items() if n_ == 'words'][0]
+            idx64 = BV(found.bits[:GF_BITS] + [0] * (64 - GF_BITS))
+            found = Ptr(lang.obj, BV(I.add(BV.const(woff_, 64).bits, ([0] * 3 + idx64.bits)[:64])), (woff_, [(idx64, 8)]))
+            miss = BV.const(0, 64)
         if b == 1: return found
-        if b == 0: return BV.const(0xffffffff, 32)
+        if b == 0: return miss
         outs = []
-        for val, ret in ((0, BV.const(0xffffffff, 32)), (1, found)):
+        for val, ret in ((0, miss), (1, found)):
             s = st.clone()
             if s.cons.add(bit, val): outs.append(Outcome(s, ret))
         return outs
